@@ -4,7 +4,7 @@
    [schmidt_K ROps n M] = (tr G)^2 / tr(G^2), G = M^T M, is the trace form; [mag_matrix n a] is the row-major matrix of
    element-wise moduli of the flat complex array [a]; [schmidt_K_Q] is the executable rational instance that the
    check runs (vm_compute) on the arrays handed to the Rust function. *)
-From Coq Require Import Reals NArith QArith Lra List.
+From Coq Require Import Reals NArith ZArith QArith Lra List String.
 From SpdVerif Require Import Model.FinSum Model.Hom Model.Schmidt Proofs.FinSum_lemmas Proofs.RMat Proofs.C11_len Proofs.C11_trace
   Proofs.C11_families Proofs.C11_svd Proofs.C11_exec Gen.SchmidtSrc Proofs.C11_src Proofs.C11_rounding.
 Local Open Scope R_scope.
@@ -23,9 +23,18 @@ Theorem C11_code_path :
     | ErrNotSquare => forall d : nat, len <> (d * d)%nat
     | ErrSvd => (exists d : nat, len = (d * d)%nat) /\
                 svd (side_of_len (N.of_nat len)) (mag_matrix (side_of_len (N.of_nat len)) a) = None
-    | OkK k => exists d : nat, len = (d * d)%nat /\ k = schmidt_K ROps d (mag_matrix d a)
+    | OkNaN => exists d : nat, len = (d * d)%nat /\ forall i j, (i < d)%nat -> (j < d)%nat -> mag_matrix d a i j = 0
+    | OkK k => exists d : nat, len = (d * d)%nat /\ trG2 ROps d (mag_matrix d a) <> 0 /\ k = schmidt_K ROps d (mag_matrix d a)
     end.
 Proof. exact schmidt_number_spec. Qed.
+
+(* Ok(NaN) (0/0) exactly for the all-zero magnitude matrix; every other array gets a value with a defined division *)
+Theorem C11_nan_iff_zero :
+  forall svd : nat -> (nat -> nat -> R) -> option (nat -> R),
+  (forall n M sv, svd n M = Some sv -> is_svd n M sv) ->
+  forall (d : nat) (a : nat -> cx R), svd d (mag_matrix d a) <> None ->
+  (schmidt_number svd (d * d) a = OkNaN <-> forall i j, (i < d)%nat -> (j < d)%nat -> mag_matrix d a i j = 0).
+Proof. exact schmidt_number_nan_iff. Qed.
 
 (* the same, for the function translated from src/math/schmidt.rs on this run (Gen/SchmidtSrc.v) *)
 Theorem C11_source_is_model : forall svd len a, src_schmidt_number svd len a = schmidt_number svd len a.
@@ -38,9 +47,14 @@ Theorem C11_source_code_path :
     match src_schmidt_number svd len a with
     | ErrNotSquare => forall d : nat, len <> (d * d)%nat
     | ErrSvd => exists d : nat, len = (d * d)%nat
-    | OkK k => exists d : nat, len = (d * d)%nat /\ k = schmidt_K ROps d (mag_matrix d a)
+    | OkNaN => exists d : nat, len = (d * d)%nat /\ forall i j, (i < d)%nat -> (j < d)%nat -> mag_matrix d a i j = 0
+    | OkK k => exists d : nat, len = (d * d)%nat /\ trG2 ROps d (mag_matrix d a) <> 0 /\ k = schmidt_K ROps d (mag_matrix d a)
     end.
 Proof. exact src_code_path. Qed.
+
+(* the arguments of the SVD call are those of the source: no U, no V, eps = f64::EPSILON, at most 10 000 iterations *)
+Theorem C11_svd_call_pinned : src_svd_args = (false, false, "f64::EPSILON"%string, 10000%N).
+Proof. exact src_svd_args_pinned. Qed.
 
 (* setup level: JointSpectrum::schmidt_number(range) is the function applied to the setup's sampled amplitudes (J arbitrary);
    on a square grid of side n it is never rejected and, when the oracle answers, equals the trace form of the samples *)
@@ -52,7 +66,8 @@ Theorem C11_setup_level :
     match src_setup_schmidt_number svd J g with
     | ErrNotSquare => False
     | ErrSvd => svd n (mag_matrix n (tabulate J g)) = None
-    | OkK k => k = schmidt_K ROps n (mag_matrix n (tabulate J g))
+    | OkNaN => forall i j, (i < n)%nat -> (j < n)%nat -> mag_matrix n (tabulate J g) i j = 0
+    | OkK k => trG2 ROps n (mag_matrix n (tabulate J g)) <> 0 /\ k = schmidt_K ROps n (mag_matrix n (tabulate J g))
     end.
 Proof. exact src_setup_level. Qed.
 
@@ -66,7 +81,8 @@ Proof. exact schmidt_number_rejects. Qed.
 (* K = (sum sv^2)^2 / sum sv^4 over the singular values of ANY orthogonal factorisation M = U diag(sv) V^T *)
 Theorem C11_svd_link : forall n M sv,
   is_svd n M sv ->
-  sv_norm_squared n sv = trG ROps n M /\ sv_kinv n sv = trG2 ROps n M /\ schmidt_of_sv n sv = schmidt_K ROps n M.
+  sv_norm_squared n sv = trG ROps n M /\ sv_kinv n sv = trG2 ROps n M /\
+  (trG2 ROps n M <> 0 -> sv_kinv n sv <> 0 /\ schmidt_of_sv n sv = schmidt_K ROps n M).
 Proof. exact svd_link. Qed.
 
 (* 1 <= K <= n for every matrix that is not identically zero (and the division is then defined) *)
@@ -74,8 +90,10 @@ Theorem C11_bounds : forall n M, nonzero_matrix n M -> 0 < trG2 ROps n M /\ 1 <=
 Proof. exact schmidt_bounds. Qed.
 
 (* the division is undefined only for the zero matrix *)
-Theorem C11_defined_iff_nonzero : forall n M, trG ROps n M = 0 -> forall i j, (i < n)%nat -> (j < n)%nat -> M i j = 0.
-Proof. exact trG_zero_matrix. Qed.
+Theorem C11_defined_iff_nonzero : forall n M,
+  (trG2 ROps n M = 0 <-> (forall i j, (i < n)%nat -> (j < n)%nat -> M i j = 0)) /\
+  (trG ROps n M = 0 <-> (forall i j, (i < n)%nat -> (j < n)%nat -> M i j = 0)).
+Proof. exact (fun n M => conj (trG2_zero_iff n M) (trG_zero_iff n M)). Qed.
 
 Theorem C11_separable : forall n u v, nonzero_matrix n (outer u v) -> schmidt_K ROps n (outer u v) = 1.
 Proof. exact schmidt_separable. Qed.
@@ -131,14 +149,22 @@ Theorem C11_exec_twin : forall n mags,
 Proof. exact exec_twin_correct. Qed.
 
 (* rounding of the arithmetic AFTER the SVD (binary64 round-to-nearest, any tie rule): for non-negative singular values, sides up
-   to 40, the returned fl(fl(N^ N^)/D^) with N^ = sum fl(s^2), D^ = sum fl(fl(s^2) fl(s^2)) (rounded left-to-right additions)
-   is within 1e-13 relative of (sum s^2)^2 / sum s^4.
-   PARTIAL: exponent range unbounded (FLX: no under/overflow — cf. the NaN notes at scales 1e-100 / 1e80), summation order
-   left to right, powi(4) as the square of the square; the accuracy of the singular values themselves remains the oracle contract. *)
-Theorem C11_rounding_partial : forall (choice : Z -> bool) n sv,
+   to 40, the returned fl(fl(N^ N^)/D^) with N^ = sum fl(s^2), D^ = sum fl(fl(s^2) fl(s^2)) is within 1e-13 relative of
+   (sum s^2)^2 / sum s^4 — for ANY order of the rounded additions: every binary summation tree [t] over the n terms of height <= n
+   (left-to-right, nalgebra's unrolled dot products, pairwise, blocked ...).
+   PARTIAL: exponent range unbounded (FLX: no under/overflow — cf. finding F16 at scales beyond 1e+-75), powi(4) as the square of
+   the square; the accuracy of the singular values themselves remains the oracle contract. *)
+Theorem C11_rounding_partial : forall (choice : Z -> bool) n sv (t : stree),
+  (n <= 40)%nat -> (forall k, 0 <= sv k) -> 0 < sv_kinv n sv ->
+  (forall a, teval t a = rsum n a) -> (theight t <= n)%nat ->
+  let K := sv_norm_squared n sv * sv_norm_squared n sv / sv_kinv n sv in
+  Rabs (Khat (b64_rnd choice) sv (tfl (b64_rnd choice) t) - K) <= 1e-13 * K.
+Proof. exact schmidt_rounding_b64_any_order. Qed.
+
+Theorem C11_rounding_left_to_right_partial : forall (choice : Z -> bool) n sv,
   (n <= 40)%nat -> (forall k, 0 <= sv k) -> 0 < sv_kinv n sv ->
   let K := sv_norm_squared n sv * sv_norm_squared n sv / sv_kinv n sv in
-  Rabs (Khat (b64_rnd choice) n sv - K) <= 1e-13 * K.
+  Rabs (Khat (b64_rnd choice) sv (fsum (b64_rnd choice) n) - K) <= 1e-13 * K.
 Proof. exact schmidt_rounding_b64. Qed.
 
 (* ---- non-vacuity *)
@@ -153,6 +179,14 @@ Proof.
   exists (fun _ _ => 1), (fun _ _ => 1). unfold orthonormal_cols, rsum. repeat split; intros;
   repeat match goal with H : (_ < 1)%nat |- _ => apply PeanoNat.Nat.lt_1_r in H; subst end; cbn; lra.
 Qed.
+
+Example C11_nonvacuous_svd2 : is_svd 2 (fun i j => if Nat.eqb i j then 0 else if Nat.eqb i 0 then 2 else 3) (fun k => if Nat.eqb k 0 then 2 else 3).
+Proof. exact svd_example_2. Qed.
+
+Example C11_nonvacuous_rounding :
+  let t := Node (Node (Leaf 0) (Leaf 1)) (Leaf 2) in
+  (forall a, teval t a = rsum 3 a) /\ (theight t <= 3)%nat /\ (forall k : nat, 0 <= (fun _ => 1) k) /\ 0 < sv_kinv 3 (fun _ => 1).
+Proof. exact rounding_example_tree. Qed.
 
 Example C11_nonvacuous_exec : Qeq (schmidt_K_Q 2 (1%Q :: 0%Q :: 0%Q :: 1%Q :: nil)) 2%Q /\ Qeq (schmidt_K_Q 2 (1%Q :: 2%Q :: 2%Q :: 4%Q :: nil)) 1%Q.
 Proof. split; vm_compute; reflexivity. Qed.
@@ -180,4 +214,7 @@ Print Assumptions C11_moduli_only.
 Print Assumptions C11_transpose.
 Print Assumptions C11_transpose_matrix.
 Print Assumptions C11_rounding_partial.
+Print Assumptions C11_rounding_left_to_right_partial.
+Print Assumptions C11_nan_iff_zero.
+Print Assumptions C11_svd_call_pinned.
 Print Assumptions C11_exec_twin.
